@@ -142,6 +142,17 @@ func c18BuildPool(ctx *Ctx, t *tape.Tape) *c18Pool {
 			b, desc = encodeOps(prog), "written by the Encoder from a generated program"
 		}
 		intact := true
+		if i > 0 && t.Chance(1, 4) {
+			// nearly the same file as its neighbour: one operand byte differs
+			// (what collides in a cache keyed on length, prefix or a weak hash)
+			b = append([]byte(nil), p.files[i-1]...)
+			desc = p.fileDesc[i-1] + " with one byte changed"
+			fromCorpus = false
+			if len(b) > 8 {
+				off := 6 + t.Intn(len(b)-7)
+				b[off] ^= byte(1 << uint(t.Intn(8)))
+			}
+		}
 		if t.Chance(1, 4) {
 			var enabled [world.NFaultKinds]bool
 			for k := range enabled {
